@@ -26,6 +26,10 @@ RULES = {
               "rewinds the durable position of a StrictlyAtOnce consumer: a poll that finds nothing, or a crash before the read that follows, re-delivers the whole tail block",
     "C09.1c": "persist-before-return in batch_read_for_topic: in the commit closure the `persist to disk` flag is cleared only under ReadConsistency::AtLeastOnce; a persist target is "
               "recorded on both the tail and the sealed arm whenever the flag is set; in the caller both non-empty targets reach WalIndex::set with the only bypass being the poisoned lock",
+    "C09.3": "a persisted position is translated back by identity, not by place: every store to the cursor's chain index (ColReaderInfo.cur_block_idx) outside the seal fold of "
+             "Reader::append_block_to_chain stores either a constant, the chain length (`caught up`), the index + 1 (advance), a value derived from the persisted sealed index "
+             "(BlockPos.cur_block_idx), or the result of a search over the chain that compares block ids (find / position / an explicit loop). `chain.len() - 1` and similar positional "
+             "guesses for `the block the persisted tail position names` are reported: when the writer rotated after the position was persisted, the block is not where they expect it",
     "C09.2": "index replacement order (ORD in WalIndex::persist): write tmp -> fsync tmp -> rename over the index (directory fsync is C10.4's obligation), and WalIndex::set calls persist on every path",
 }
 
@@ -438,6 +442,58 @@ def check_no_tail_regress(ctx, facts):
     ctx.floor("C09.1e", "provisional tail persists in read_next", n, 2)
 
 
+def check_position_translation(ctx, facts):
+    n = 0
+    for name in sorted(facts.bodies):
+        b = facts.bodies[name]
+        F = common.short_fn(name)
+        if b.j.get("derived") or F.endswith("Reader::append_block_to_chain"):
+            continue
+        for site, st in b.assigns():
+            p = st["place"]
+            if not (p["p"] and isinstance(p["p"][-1], dict) and p["p"][-1].get("n") == "cur_block_idx" and str(p["p"][-1].get("o", "")).endswith("ColReaderInfo")):
+                continue
+            if st["rv"]["k"] not in ("use", "cast"):
+                continue
+            n += 1
+            ctx.saw_body(b)
+            e = strip_refs(expr(b, st["rv"]["op"]))
+            sh = show(e, 10)
+            ok = None
+            if e[0] == "c":
+                ok = "constant"
+            elif b.kind.lower() == "closure" and re.match(r"^_1\.[A-Za-z_0-9]+$", sh):
+                ok = "the chain index planned / reached by the batch read (captured local)"
+            elif re.match(r"^len\((ref\()*.*\.chain\)*\)$", sh):
+                ok = "chain length (caught up)"
+            elif e[0] == "Add" and (show(strip_refs(e[1]), 8).endswith(".cur_block_idx") or show(strip_refs(e[1]), 8) in ("idx", "cur_idx")) and fmtfeat_const(e[2]) == 1:
+                ok = "advance by one"
+            else:
+                src, _, _ = origins(b, st["rv"]["op"], follow_all_calls=True)
+                calls = {strip_generics(o.what) for o in src if o.kind == "call"}
+                from_pos = any(o.kind == "field" and isinstance(o.what, tuple) and str(o.what[0]).endswith("index::BlockPos") and o.what[1] == "cur_block_idx" for o in src)
+                searched = any(re.search(r"Iterator>?::(find|position|rposition|find_map|rfind)$", c_) for c_ in calls)
+                guess = any(re.search(r"::(checked_sub|saturating_sub|wrapping_sub|last|last_mut)$", c_) for c_ in calls) or "Sub(" in sh
+                if searched:
+                    ok = "index found by a search over the chain"
+                elif from_pos and not guess:
+                    ok = "derived from the persisted sealed index"
+                elif e[0] == "Add" and fmtfeat_const(e[2]) == 1 and not guess:
+                    ok = "advance by one"
+            if ok:
+                ctx.ok("C09.3", F, "cur_block_idx := " + ok, b.relfile, site.line)
+            else:
+                ctx.violate("C09.3", F, "position-translated-by-place", b.relfile, site.line,
+                            "the cursor's chain index is set to %s: a persisted position is mapped back to a block by where that block is expected to be in the chain, not by "
+                            "finding it; if the writer rotated after the position was persisted the consumer resumes in another block and skips or repeats entries" % sh[:80])
+    ctx.floor("C09.3", "stores to the cursor's chain index", n, 6)
+
+
+def fmtfeat_const(e):
+    from . import fmtfeat
+    return fmtfeat.const_eval(e)
+
+
 def check_batch_persist(ctx, facts):
     b = facts.body("batch_read_for_topic")
     ctx.saw_body(b)
@@ -572,6 +628,7 @@ def run(ctx):
     check_read_next_persist(ctx, facts)
     check_persisted_equals_cursor(ctx, facts)
     check_no_tail_regress(ctx, facts)
+    check_position_translation(ctx, facts)
     check_batch_persist(ctx, facts)
     check_index(ctx, facts)
     ctx.assume("NOT decided: the provisional `TAIL_FLAG|id, 0` persist before the tail read, tail block ids versus recovery's synthetic ids (value-level), the AtLeastOnce redelivery bound")
